@@ -31,13 +31,13 @@ def split_messages(stream):
     return out, stream[i:]
 
 
-def scenario(seed, n_threads, per_thread, partial, inbound, lines, limit, sizes):
+def scenario(seed, n_threads, per_thread, partial, inbound, lines, limit, sizes, close_end=False):
     import bromelia.transport as TR
     import bromelia.setup as ST
     import bromelia.statemachine as SM
     from bromelia.setup import Diameter
     from bromelia.base import DiameterMessage, DiameterRequest
-    from bromelia.messages import CEA, DWR
+    from bromelia.messages import CEA, DWR, DPA
     from bromelia.avps import UserNameAVP
     s = simlib.Sim(seed=seed, trace_files=("bromelia/transport.py", "bromelia/setup.py") if lines else (), max_steps=120000)
     s.keep_log = False
@@ -154,9 +154,55 @@ def scenario(seed, n_threads, per_thread, partial, inbound, lines, limit, sizes)
                             m = DiameterRequest(command_code=316, application_id=16777251)
                             m.append(UserNameAVP("in%d" % i))
                         state["pending_in"].append(m.dump())
+                    # watchdog requests first (they are answered, which hands a new batch over); the application requests, which
+                    # cause no outbound traffic, last - so that a run can END with inbound data arriving in the middle of a write
+                    state["pending_in"].sort(key=lambda b: b[5:8] != (280).to_bytes(3, "big"))
                 return False
-            if state["pending_in"] and not sock.inbox and rng.random() < 0.03:
+            _tr = d._association.transport if d._association is not None else None
+            mid_write = _tr is not None and bool(_tr._send_buffer)          # a partial write has left a remainder
+            # invariant of the hand-over (holds outside the transport lock): while bytes wait in the hand-over buffer or in the
+            # send buffer, the socket is registered for write events - otherwise they sit there until some later submission
+            # happens to re-arm it. Checked each time the transport thread is about to block in select().
+            tt = next((t for t in s.tasks if t.name == "transport_layer_thread" and not t.done), None)
+            if _tr is not None and tt is not None and isinstance(tt.label, tuple) and tt.label[:1] == ("select",) and not _tr._stop_threads:
+                if tt.steps != state.get("sel_seen"):
+                    state["sel_seen"] = tt.steps
+                    pend = bool(_tr._send_buffer) or bool(getattr(_tr, "_out_pending", b""))
+                    armed = any(k.events & 2 for k in _tr.selector.map.values())
+                    state["unarmed"] = state.get("unarmed", 0) + 1 if (pend and not armed) else 0
+                    if state["unarmed"] >= 3:
+                        state["lost_interest"] = len(_tr._send_buffer) + len(getattr(_tr, "_out_pending", b""))
+                        return True
+            if state["pending_in"] and not sock.inbox and (rng.random() < 0.03 or (mid_write and rng.random() < 0.5)):
                 sock.inbox.append(state["pending_in"].pop(0))
+            if close_end and len(done) == n_threads:
+                # every send_message() has returned: the application closes the node at once (whatever is still queued or in
+                # flight); the peer answers the DPR once it has received it; the run ends when the node is Closed
+                if not state.get("closing"):
+                    state["closing"] = True
+                    s.spawn(lambda: d.close(), "closer")
+                if not state.get("dpa"):
+                    for m in split_messages(sock.out)[0]:
+                        if m[5:8] == (282).to_bytes(3, "big") and m[4] & 0x80:
+                            dpa = DPA(origin_host="peer.h", origin_realm="peer.r")
+                            dpa.header.hop_by_hop, dpa.header.end_to_end = m[12:16], m[16:20]
+                            sock.inbox.append(dpa.dump())
+                            state["dpa"] = True
+                            break
+                if d._association is None or d._association.transport is None or d.get_current_state() == "Closed":
+                    state["closed_end"] = True
+                    return True
+                return False
+            if len(done) == n_threads and not state["pending_in"] and not sock.inbox and not pipeline_idle():
+                # liveness: everything has been submitted, nothing inbound is left, the (simulated) socket accepts any amount of
+                # data - bytes held in a pipeline stage must keep moving
+                if state.get("stall_from") is None or state.get("stall_out") != len(sock.out):
+                    state["stall_from"], state["stall_out"] = s.steps, len(sock.out)
+                elif s.steps - state["stall_from"] > 25000:
+                    state["stalled"] = True
+                    return True
+            else:
+                state["stall_from"] = None
             if len(done) == n_threads and not state["pending_in"] and not sock.inbox and pipeline_idle():
                 # every stage empty for 600 consecutive scheduler steps (a batch may be in a local variable of the
                 # state-machine thread between leaving the queue and reaching the hand-over buffer)
@@ -170,7 +216,7 @@ def scenario(seed, n_threads, per_thread, partial, inbound, lines, limit, sizes)
         status = s.run(until=until)
         a = d._association
         accepted = [e[3] for e in log if e[0] == "put" and a is not None and e[1] == id(a._send_messages)]
-        idle = pipeline_idle()
+        idle = pipeline_idle() or bool(state.get("closed_end"))
         excs = [(t.name, type(t.exc).__name__, str(t.exc)[:80]) for t in s.tasks if t.exc is not None]
         debug = {"queue_left": len(a._send_messages.queue) if a is not None else None, "state": d.get_current_state(),
                  "blocked": s.blocked()[:6], "tasks": [(t.name, t.done, t.label[:2] if isinstance(t.label, tuple) else t.label) for t in s.tasks]}
@@ -181,7 +227,7 @@ def scenario(seed, n_threads, per_thread, partial, inbound, lines, limit, sizes)
         TR.TcpConnection._set_selector_events_mask, TR.TcpConnection.write, TR.TcpConnection.read = orig_mask, orig_write, orig_read
         del TR.TcpConnection._out_pending
     return {"status": status, "out": sock.out, "accepted": accepted, "submitted": submitted, "log": log, "done": sorted(done), "idle": idle,
-            "excs": excs, "debug": debug, "garbled": state.get("garbled"), "schedule_len": len(s.choices), "steps": s.steps, "send_queue_id": id(a._send_messages) if a is not None else None}
+            "excs": excs, "debug": debug, "garbled": state.get("garbled"), "stalled": bool(state.get("stalled")), "closed_end": bool(state.get("closed_end")), "close_requested": bool(state.get("closing")), "lost_interest": state.get("lost_interest"), "schedule_len": len(s.choices), "steps": s.steps, "send_queue_id": id(a._send_messages) if a is not None else None}
 
 
 def verdict(res, n_threads):
@@ -190,6 +236,21 @@ def verdict(res, n_threads):
         return ("the first bytes the node wrote (its CER) are not a decodable message (torn or duplicated)", {"prefix": res["garbled"]})
     acc = list(res["accepted"])
     msgs, rest = split_messages(res["out"])
+    if res.get("lost_interest"):
+        return ("%d byte(s) wait in the transport's buffers while the socket is not registered for write events (select() entered three times "
+                "in that state): they are not written until some later submission re-arms the socket" % res["lost_interest"],
+                {"accepted": len(acc), "written_whole": len([m for m in acc if m in set(msgs)])})
+    if res.get("stalled"):
+        have0 = set(msgs)
+        return ("submitted bytes stay in a pipeline stage for good although every sender has returned, nothing inbound is pending and the "
+                "socket accepts data (never written)", {"accepted": len(acc), "written_whole": len([m for m in acc if m in have0]), "partial_tail": rest[:24].hex()})
+    if res.get("close_requested") and not res.get("closed_end") and len(res["done"]) == n_threads:
+        have0 = set(msgs)
+        lost = [m for m in acc if m not in have0]
+        if lost:
+            return ("the node was closed right after the last send_message() returned: %d accepted message(s) were never written and the node "
+                    "never reached Closed (stranded in the send queue)" % len(lost),
+                    {"first_missing_prefix": lost[0][:40].hex(), "state": res["debug"].get("state"), "queue_left": res["debug"].get("queue_left")})
     if len(res["done"]) != n_threads:
         if res["excs"]:
             return ("a submitting thread raised", res["excs"][:3])
@@ -262,9 +323,10 @@ def explore(chk, rng, n, tag):
         small_limit = rng.random() < 0.4
         limit = rng.choice([150, 300, 700]) if small_limit else 0
         sizes = [0, 5, 40] if not small_limit else [0, 5, 40, 120, 260]
-        res = scenario(seed, n_threads, per_thread, partial, inbound, lines_mode, limit, sizes)
+        close_end = rng.random() < 0.3
+        res = scenario(seed, n_threads, per_thread, partial, inbound, lines_mode, limit, sizes, close_end)
         inp = {"op": "outbound", "seed": seed, "threads": n_threads, "per_thread": per_thread, "partial_writes": partial, "inbound_messages": inbound,
-               "line_level": lines_mode, "batch_limit": limit or 262144, "sizes": sizes}
+               "line_level": lines_mode, "batch_limit": limit or 262144, "sizes": sizes, "closed_right_after_submitting": close_end}
         kind = "%s:%s%s%s" % (tag, "partial" if partial else "whole", ":inbound" if inbound else "", ":small-limit" if small_limit else "")
         chk.case(inp, kind=kind)
         if len(res["done"]) != n_threads and not res["excs"]:
@@ -328,7 +390,7 @@ def replay(path):
         return 0
     i = v["input"]
     limit = 0 if i["batch_limit"] == 262144 else i["batch_limit"]
-    res = scenario(i["seed"], i["threads"], i["per_thread"], i["partial_writes"], i["inbound_messages"], i["line_level"], limit, i["sizes"])
+    res = scenario(i["seed"], i["threads"], i["per_thread"], i["partial_writes"], i["inbound_messages"], i["line_level"], limit, i["sizes"], i.get("closed_right_after_submitting", False))
     now = verdict(res, i["threads"])
     print("scenario: %s" % json.dumps(i))
     print("recorded: %s" % v["what"])
